@@ -22,11 +22,47 @@ def taint_from(fn, seeds, through_bin=False):
     t = set(seeds)
     via_collection = False
     work = list(seeds)
+    part = {}       # local -> set of field indices that carry the value (it entered a tuple/struct at those fields)
+    wrap = {}       # local holding Ok(..)/Some(..)/Continue(..) of such a struct -> the struct's carrying fields
+    structs = set(p_ for p_, a_ in (fn.fx.adts.items() if getattr(fn, "fx", None) is not None else []) if a_.get("kind") == "struct")
+
+    def first_field(pl):
+        for e in (pl.get("p") or []):
+            if isinstance(e, dict) and "f" in e:
+                return e["f"]
+        return None
     while work:
         l = work.pop()
         for site, how in du.uses.get(l, []):
             n = site.node
             tgt = None
+            tgt_part = None
+            if l in wrap:
+                if site.is_term and n["k"] == "call" and how == "arg0" and callee_orig(n) == "core::ops::try_trait::Try::branch" \
+                        and not n["dest"].get("p"):
+                    wrap.setdefault(n["dest"]["l"], set()).update(wrap[l])
+                elif not site.is_term and how == "rv" and n["rv"]["k"] == "use" and not n["lhs"].get("p"):
+                    pl_ = n["rv"]["op"].get("mv") or n["rv"]["op"].get("cp")
+                    pr_ = (pl_ or {}).get("p") or []
+                    if pl_ is not None and not pr_:
+                        wrap.setdefault(n["lhs"]["l"], set()).update(wrap[l])
+                    elif len(pr_) == 2 and isinstance(pr_[0], dict) and "dc" in pr_[0]:
+                        tgt_part = set(wrap[l])       # the payload is the struct again
+            if l in part:
+                # only reads of the carrying fields (or of the whole value) see it
+                pl_ = None
+                if site.is_term and n["k"] == "call" and how.startswith("arg"):
+                    a_ = n["args"][int(how[3:])]
+                    pl_ = a_.get("mv") or a_.get("cp")
+                elif not site.is_term and how == "rv":
+                    rv_ = n["rv"]
+                    pl_ = (rv_.get("op", {}).get("mv") or rv_.get("op", {}).get("cp")) if rv_["k"] in ("use", "cast") else rv_.get("pl")
+                if pl_ is not None and pl_.get("l") == l:
+                    ff = first_field(pl_)
+                    if ff is not None and ff not in part[l]:
+                        continue
+                    if ff is None and not site.is_term and n["rv"]["k"] == "use" and not n["lhs"].get("p"):
+                        tgt_part = set(part[l])      # the whole struct moves on: same fields carry it
             if site.is_term:
                 if n["k"] != "call" or not how.startswith("arg"):
                     continue
@@ -53,6 +89,12 @@ def taint_from(fn, seeds, through_bin=False):
                 rv = n["rv"]
                 if rv["k"] in ("use", "ref", "cast", "agg") or (through_bin and rv["k"] in ("bin", "un")):
                     tgt = n["lhs"]["l"]
+                    if rv["k"] == "agg" and not n["lhs"].get("p") and (
+                            rv.get("ak") == "tuple" or (rv.get("ak") == "adt" and rv.get("adt") in structs)):
+                        tgt_part = set(i_ for i_, o_ in enumerate(rv["fields"]) if op_local(o_) == l)
+                    elif rv["k"] == "agg" and not n["lhs"].get("p") and rv.get("ak") == "adt" and len(rv["fields"]) == 1 \
+                            and l in part:
+                        wrap.setdefault(tgt, set()).update(part[l])
                     pr = n["lhs"].get("p") or []
                     if pr and pr[0] == "deref":
                         # a write through a pointer (`vec![x]` initialises its box this way): what the pointer was
@@ -83,9 +125,20 @@ def taint_from(fn, seeds, through_bin=False):
                             if x not in t:
                                 t.add(x)
                                 work.append(x)
-            if tgt is not None and tgt not in t:
-                t.add(tgt)
-                work.append(tgt)
+            if tgt is not None:
+                if tgt not in t:
+                    t.add(tgt)
+                    if tgt_part:
+                        part[tgt] = set(tgt_part)
+                    work.append(tgt)
+                elif tgt in part:
+                    if tgt_part:
+                        if not tgt_part <= part[tgt]:
+                            part[tgt] |= tgt_part
+                            work.append(tgt)
+                    else:
+                        del part[tgt]           # now wholly tainted
+                        work.append(tgt)
     return t, via_collection
 
 
@@ -379,7 +432,8 @@ def sender_protocol(fx):
             obs.append(anchor_ob("R-THREAD", "%s creates the Operation work queue" % d))
     # consumers end when the queue closes: blocking iteration, no polling
     for lab, f in views.workers(fx):
-        it = [t for bi, t in q.calls_to(f, INTO_ITER) if "Receiver<" + OP_T in " ".join(t.get("arg_tys", []))]
+        it = [t for bi, t in f.calls() if "Receiver<" + OP_T in " ".join(t.get("arg_tys", [])) and callee_orig(t) in (
+            INTO_ITER, "crossbeam_channel::channel::Receiver::<T>::iter", "crossbeam_channel::channel::Receiver::<T>::recv")]
         obs.append(Ob("R-THREAD", mkkey("R-THREAD", lab, "Receiver<Operation>", 0, "iterated"), bool(it), f.loc(), lab,
                       "%s consumes its queue with the blocking iterator that ends when the queue closes: %s" % (lab, bool(it))))
     polling = {"crossbeam_channel::channel::Receiver::<T>::try_recv", "crossbeam_channel::channel::Receiver::<T>::try_iter",
@@ -413,7 +467,7 @@ def channels_unbounded(fx):
                 obs.append(Ob("R-THREAD", mkkey("R-THREAD", f.path, o, k, "bounded-channel"), False, q.loc_of(t), f.path,
                               "a bounded channel: send can block and close a wait cycle", dict(callee=o)))
                 k += 1
-    ok = nun >= 3
+    ok = nun >= 1
     obs.append(Ob("R-THREAD", mkkey("R-THREAD", "workspace", UNBOUNDED, 0, "all-unbounded"), ok, "", "",
                   "all %d channels are created with unbounded() (sends never block)" % nun,
                   None if ok else dict(found=nun)))
